@@ -149,6 +149,51 @@ def r11_6(chk, facts):
                 cls, 'under a test of the widened local context' if widened else 'without a test of the caller\'s evaluation flags'), None, fn['q'])
     chk.require(n >= 2, 'R11.6: only %d annotation hand-backs found in schema_validator.hpp' % n)
 
+def r11_7(chk, facts):
+    """Dialect dispatch: the branch selected by schema_version::draftN() builds / returns the draftN artefact."""
+    import re as _re
+    chk.rule('R11.7', 'dialect dispatch: in every function of json_schema_factory.hpp that compares a schema id with schema_version::draftN(), the '
+                      'branch taken on equality constructs the validator factory / returns the meta-schema of namespace draftN', floor=15)
+    n = 0; seen = set()
+    for fn in facts.functions:
+        if fn.get('dep') or fn.get('body') is None or not fn['file'].endswith('json_schema_factory.hpp'): continue
+        if (fn['file'], fn['l']) in seen: continue
+        conds = []
+        g = None
+        for x in A.walk_no_lambda(fn['body']):
+            if x.get('k') in A.CALLS and _re.fullmatch(r'draft\d+', A.callee_name(x) or '') and 'schema_version' in (x.get('cq') or ''):
+                conds.append(x)
+        if not conds: continue
+        seen.add((fn['file'], fn['l']))
+        chk.analysed(fn)
+        g = C.CFG(fn['body'])
+        done = set()
+        for x in conds:
+            nd = g.node_of(x)
+            if nd is None or nd.kind != 'cond' or nd.id in done: continue
+            done.add(nd.id)
+            want = A.callee_name(x)
+            cmp_ = G.comparison(nd.ast)
+            eq = cmp_ is not None and cmp_[0] == '=='
+            te = [e for e in nd.succ if e.label is (True if eq else False)]
+            if not te: continue
+            built = set()
+            for m in G.region_of_edge(g, te[0]):
+                if not isinstance(m.ast, dict) or m.kind not in ('stmt', 'return', 'cond'): continue
+                for y in A.walk_no_lambda(m.ast):
+                    for q in (y.get('cq'), y.get('q')):
+                        mm = _re.search(r'jsonschema::(draft\d+)::', q or '')
+                        if mm: built.add(mm.group(1))
+                    if y.get('t'):
+                        mm = _re.search(r'jsonschema::(draft\d+)::', fn['_types'][y['t'] - 1])
+                        if mm: built.add(mm.group(1))
+            if not built: continue
+            n += 1
+            site = U.site(fn, 'branch %s' % want)
+            if built == {want}: chk.ok('R11.7', site, {'line': nd.line, 'constructs': sorted(built)})
+            else: chk.fail('R11.7', site, fn['file'], nd.line, '%s: the branch for schema_version::%s() builds %s' % (fn['n'], want, ', '.join(sorted(built))), {'constructs': sorted(built)}, fn['q'])
+    chk.require(n >= 15, 'R11.7: only %d dialect branches found in json_schema_factory.hpp' % n)
+
 def run(chk, tier, only_rule=None):
     chk.explanation = EXPLANATION
     chk.not_decided = NOT_DECIDED
@@ -160,6 +205,7 @@ def run(chk, tier, only_rule=None):
     chk.rule('R11.4', 'reporter.error() results are returned or tested against walk_state::abort and propagated', floor=40)
     r11_5(chk, facts)
     r11_6(chk, facts)
+    r11_7(chk, facts)
     voc = vocab()
     # keywords looked up by the shared layers every dialect factory delegates to
     shared = {}
